@@ -7,10 +7,12 @@ from ..core import watchdog, Timeout
 from ..oracle import Oracle, OracleMismatch
 
 UNIVERSE = [(0, 1), (0, 2), (1, 2), (2, 3), (3, 4), (1, 4), (0, 5), (5, 6), (2, 6), (4, 7), (6, 7), (3, 7)]
+UNIVERSE += [(100 + i, 101 + i) for i in range(400)]       # large sets: positions beyond CPython's small-int cache (> 256)
+ENC = {e: i + 1 for i, e in enumerate(UNIVERSE)}
 
 
 def _project(ds, usize):
-    enc = {e: i + 1 for i, e in enumerate(UNIVERSE)}
+    enc = ENC
     it = [enc.get(e, 0) for e in list(ds)]
     ev = {"iter": it, "len": len(ds), "contains": [i + 1 for i in range(usize) if UNIVERSE[i] in ds]}
     pe, ph = getattr(ds, "_edges", None), getattr(ds, "_edge_hashmap", None)
@@ -50,12 +52,12 @@ def execute(case):
                         res = orc.run_seeded(rng.randrange(1 << 30), ds.draw)
                 else:
                     res = orc.run_seeded(rng.randrange(1 << 30), ds.draw)
-                ev["res"] = UNIVERSE.index(res) + 1 if res in UNIVERSE else 0
+                ev["res"] = ENC.get(res, 0)
             elif op == "drawall":
                 orc = Oracle()
                 try:
                     for res, trail, _w in orc.enumerate(ds.draw, max_leaves=64):
-                        ev["results"].append(UNIVERSE.index(res) + 1 if res in UNIVERSE else 0)
+                        ev["results"].append(ENC.get(res, 0))
                         ev["arity"].append(trail[0][1] if trail else 0)
                 except OracleMismatch:
                     ev["op"] = "observe"   # randomness not enumerable: clause not decided
@@ -165,6 +167,18 @@ def run(chk):
         {"op": "add", "arg": 1}, {"op": "add", "arg": 2}, {"op": "remove", "arg": 2}, {"op": "drawall", "arg": 0},
         {"op": "remove", "arg": 1}, {"op": "drawall", "arg": 0}, {"op": "draw", "arg": -1}, {"op": "remove", "arg": 1},
         {"op": "add", "arg": 1}, {"op": "add", "arg": 1}, {"op": "drawall", "arg": 0}, {"op": "observe", "arg": 0}]})
+    # large sets (more than 257 members): grow, remove in last-in-first-out order down to empty, refill, remove first-in-first-out
+    for big in ((300, "lifo"), (280, "fifo")) if not thorough else ((300, "lifo"), (280, "fifo"), (400, "lifo"), (350, "mixed")):
+        n, order = big
+        ops = [{"op": "add", "arg": 13 + i} for i in range(n)]
+        ids = list(range(n))
+        if order == "lifo":
+            ids = ids[::-1]
+        elif order == "mixed":
+            rng.shuffle(ids)
+        ops += [{"op": "remove", "arg": 13 + i} for i in ids[:n - 3]] + [{"op": "observe", "arg": 0}, {"op": "draw", "arg": -1}]
+        ops += [{"op": "add", "arg": 13 + i} for i in range(5)] + [{"op": "remove", "arg": 13 + n + 5}, {"op": "observe", "arg": 0}]
+        rcases.append({"kind": "large-" + order, "usize": 12 + n + 10, "ops": ops, "seed": 3})
     rtraces = [execute(c) for c in rcases]
     leaves = sum(len(e["results"]) for t in rtraces for e in t["events"])
     chk.rng_leaves += leaves
